@@ -34,7 +34,8 @@ fn toggle(flag: &Arc<crate::variable::Mut>) -> Instruction {
 /// the instruction kinds occurring in the trees of this file (declared-shape gating, lib/patch.py)
 fn declare() {
     use crate::instruction::verif_gate::*;
-    scalar_ops_only();
+    allow_binops(b(crate::BinOperator::AssignAdd) | b(crate::BinOperator::AssignXor) | b(crate::BinOperator::Subtract) | b(crate::BinOperator::And) | b(crate::BinOperator::Or) | b(crate::BinOperator::AssignSubtract));
+    allow_unops(0);
     allow_mask((1 << K_VARIABLE) | (1 << K_BINOPERATION) | (1 << K_ARRAY) | (1 << K_TUPLE) | (1 << K_STRUCT) | (1 << K_ARRAYREPEAT) | (1 << K_SLICING) | (1 << K_IFELSE));
 }
 fn run(i: &Instruction) -> Result<Variable, ExecStop> {
